@@ -597,3 +597,69 @@ class SliceToBound(FnContract):
 
 
 CONTRACTS.append(SliceToBound())
+
+
+class SliceAggregationTranspose(FnContract):
+    """ImageViewerState.numpy_slice_aggregation_transpose: what get_sliced_data turns into bounds, aggregation and transposition."""
+    property_ids = ('C16',)
+    target = IMG + ":ImageViewerState.numpy_slice_aggregation_transpose"
+    title = ("the two displayed axes get the whole axis, an aggregated axis its slice and a scalar axis its index; the aggregation list has one entry per axis that survives "
+             "(none for the displayed axes, the function for aggregated ones) in axis order; transposed iff the y axis comes after the x axis; nothing without reference data")
+
+    def configs(self, tier):
+        out = [dict(ndim=0, x=0, y=0, kinds='-', ref=False)]
+        for nd in (2, 3, 4):
+            for x in range(nd):
+                for y in range(nd):
+                    if x == y:
+                        continue
+                    others = nd - 2
+                    for kinds in itertools.product('sa', repeat=others):
+                        out.append(dict(ndim=nd, x=x, y=y, kinds=''.join(kinds) or '-', ref=True))
+        return out
+
+    def inputs(self, cfg, P):
+        nd = cfg['ndim']
+        if not cfg['ref']:
+            vs = PObj('ImageViewerState', fields={'reference_data': None})
+            return Inputs([vs], st=St(vs=vs, entries=[]))
+        kinds = iter(cfg['kinds'])
+        entries = []
+        for i in range(nd):
+            if i in (cfg['x'], cfg['y']):
+                entries.append(('displayed', z3.Int('slice%d' % i)))          # whatever index is stored there is ignored
+            elif next(kinds) == 'a':
+                entries.append(('aggregated', PObj('AggregateSlice', fields={'slice': PObj('slice-of-axis-%d' % i), 'function': PObj('function-of-axis-%d' % i)})))
+            else:
+                entries.append(('scalar', z3.Int('slice%d' % i)))
+        vs = PObj('ImageViewerState', fields={'reference_data': PObj('Data', fields={'ndim': nd}), 'slices': tuple(e[1] for e in entries),
+                                              'x_att': PObj('ComponentID', fields={'axis': cfg['x']}), 'y_att': PObj('ComponentID', fields={'axis': cfg['y']})})
+        return Inputs([vs], st=St(vs=vs, entries=entries))
+
+    def globals_(self, cfg, st):
+        return {'AggregateSlice': PType('AggregateSlice')}
+
+    def ensures(self, cfg, st, result):
+        if not cfg['ref']:
+            return [('no-reference-data:nothing', result is None)]
+        ok = isinstance(result, tuple) and len(result) == 3 and isinstance(result[0], PList) and isinstance(result[1], PList)
+        if not ok:
+            return [('returns-slices-aggregation-transpose', False)]
+        slices, agg, transpose = result[0].items, result[1].items, result[2]
+        out = [('one-entry-per-axis', len(slices) == cfg['ndim'])]
+        if len(slices) == cfg['ndim']:
+            for i, (kind, v) in enumerate(st.entries):
+                s = slices[i]
+                if kind == 'displayed':
+                    out.append(('axis-%d:displayed-axis-whole' % i, isinstance(s, PSlice) and s.start is None and s.stop is None and s.step is None))
+                elif kind == 'aggregated':
+                    out.append(('axis-%d:aggregated-axis-gets-its-slice' % i, s is v.fields['slice']))
+                else:
+                    out.append(('axis-%d:scalar-axis-gets-its-index' % i, is_z3(s) and z3.eq(s, v)))
+        want = [None if k == 'displayed' else v.fields['function'] for k, v in st.entries if k != 'scalar']
+        out.append(('aggregation-list:one-entry-per-surviving-axis-in-order', len(agg) == len(want) and all(a is w for a, w in zip(agg, want))))
+        out.append(('transposed-iff-y-axis-after-x-axis', transpose is (cfg['y'] > cfg['x']) or transpose == (cfg['y'] > cfg['x'])))
+        return out
+
+
+CONTRACTS.append(SliceAggregationTranspose())
